@@ -142,7 +142,7 @@ def main(tier, seed):
     chk.distinct = stats['vectors']
     chk.extra.update({'programs': 3 + len(specs), 'disagreements_checked': chk.evaluations,
                       'explanation': 'programs = murmur3, spooky2, crc32c (2 variants) and %d golden arrays' % len(specs)})
-    chk.rule = ('digests of murmur3 and spooky2 for every length 0..1100 x 4 seeds and CRC-32C (table, SSE4.2 and chained) for every length 0..1100: current build = vendored vectors of the reference build = Lean executable model; %d golden arrays (both hash kinds, hash sizes 4/8/16, 1..6 parities, z-mode, split parity, content v2/v3) x 2 configuration line orders: Lean decode equals the recorded dump, check passes, min(np, nd) wiped disks are rebuilt from the golden parity byte for byte; generator tables re-proved against the definition' % len(specs))
+    chk.rule = ('digests of murmur3 and spooky2 for every length 0..1100 x 4 seeds and CRC-32C (table, SSE4.2 and chained) for every length 0..1100: current build = vendored vectors of the reference build = Lean executable model; %d golden arrays (both hash kinds, hash sizes 4/8/16, 1..6 parities, z-mode, split parity, content v2/v3, one array half way through a rehash with both hash kinds and seeds live) x 2 configuration line orders: Lean decode equals the recorded dump, check passes, min(np, nd) wiped disks are rebuilt from the golden parity byte for byte; generator tables re-proved against the definition' % len(specs))
     chk.samples = [dict(stats)]
     chk.corr['STABLE'] = dict(stats)
     chk.finish()
